@@ -471,7 +471,7 @@ def main(run):
             pass
         items.append({"kind": "classproperty",
                       "cfg": {"cache": ca, "per_subclass": ps, "overridable": ov, "fset": fs, "fdel": fd,
-                              "state_cap": 1500 if run.tier == "quick" else 20000}})
+                              "state_cap": 20000}})
     for rec in pmap(work, items):
         run.merge(rec)
     run.add(
